@@ -416,16 +416,16 @@ var StartURLs = []string{
 
 // SetterValues is the per-setter value menu: every early return of the override paths is hit.
 var SetterValues = map[string][]string{
-	"protocol": {"http", "https:", "file", "ws", "foo", "hTTp", "", "1a", "a+b-c.", "http:x", "ftp"},
+	"protocol": {"http", "https:", "file", "ws", "foo", "hTTp", "", "1a", "a+b-c.", "http:x", "ftp", "\t\n"},
 	"username": {"", "u", "a:b@/é%41 "},
 	"password": {"", "p", "a:b@/é%41 "},
 	"host": {"", "h", "H%41", "h:81", "h:", ":81", "h:80", "h:65536", "h:8a", "[::1]", "[::1]:82", "[::1", "1.2.3.4", "0x7f.1",
-		"1.2.3.4.5", "a b", "x/y", "h?q", "h#f", "h\\p", "localhost", "é", "xn--", "h:443"},
-	"hostname": {"", "h", "H%41", "h:81", ":81", "[::1]", "[::1", "1.2.3.4", "0x7f.1", "1.2.3.4.5", "a b", "x/y", "h?q", "h#f", "h\\p", "localhost", "é", "xn--"},
-	"port":     {"", "0", "80", "443", "21", "8080", "65535", "65536", "8080x", "x80", "+80", " 81", "0081", "99999999999999999999", "8\t1"},
-	"pathname": {"", "/", "a", "/a/b", "//x", "/.//x", "..", "/a/../b", "C|", "/C|/x", "\\a", "?#", " ", "%2e%2E", "a%zz", "/a\tb"},
-	"search":   {"", "?", "?a=b", "a b'\"#x", "??", "a=1&a=2&b", "%zz é", "a=1\t2&b=\n3", "\xff=\xfe%"},
-	"hash":     {"", "#", "#a", "a b`<", "##", "é\x00", "a\tb\n"},
+		"1.2.3.4.5", "a b", "x/y", "h?q", "h#f", "h\\p", "localhost", "é", "xn--", "h:443", "h:８", "h:8１", "\t\n"},
+	"hostname": {"", "h", "H%41", "h:81", ":81", "[::1]", "[::1", "1.2.3.4", "0x7f.1", "1.2.3.4.5", "a b", "x/y", "h?q", "h#f", "h\\p", "localhost", "é", "xn--", "\t\n"},
+	"port":     {"", "0", "80", "443", "21", "8080", "65535", "65536", "8080x", "x80", "+80", " 81", "0081", "99999999999999999999", "8\t1", "８", "8１", "٣", "\t\n"},
+	"pathname": {"", "/", "a", "/a/b", "//x", "/.//x", "..", "/a/../b", "C|", "/C|/x", "\\a", "?#", " ", "%2e%2E", "a%zz", "/a\tb", "\t\n"},
+	"search":   {"", "?", "?a=b", "a b'\"#x", "??", "a=1&a=2&b", "%zz é", "a=1\t2&b=\n3", "\xff=\xfe%", "\t\n"},
+	"hash":     {"", "#", "#a", "a b`<", "##", "é\x00", "a\tb\n", "\t\n"},
 }
 
 var setterOrder = []string{"protocol", "username", "password", "host", "hostname", "port", "pathname", "search", "hash"}
